@@ -46,18 +46,50 @@ M1_ASSUME = ['the correspondence run reproduces quiescent (class S0) schedules o
              'ws layer delivers handler calls as the fake does (E1-E6 of DESIGN.md 4.3a)']
 M1_RULE = 'corpus of finding witnesses first, then seeded random histories (4-46 events) of send (valid/invalid) / reply (matching, foreign, queued, other client) / timer expiry / write failure on-off / disconnect / reconnect / stop / start on the real ocpp1.6 and ocpp2.0.1 endpoints of both roles, queue capacities 0..10, 1-3 clients on the server; a case counts when its encoding is distinct and has more than 3 integers'
 
-def m1prop(pid, props_file, prefixes, quick=300, thorough=6000):
+def scenario_extra(kind, scen, what, quick=4, thorough=40):
+    """a real-socket scenario of tools/cmd/harness/c19.go run as a monitor of this property: every run must end with [1 ..]"""
+    def f(prop, b, tier, seed):
+        import os, subprocess
+        res = {'obligations': 0, 'discharged': 0, 'violations': [], 'broken': [], 'coverage': {}}
+        if not b.go_ok:
+            return res
+        root = os.path.dirname(os.path.dirname(os.path.abspath(__file__)))
+        n = thorough if tier == 'thorough' else quick
+        inp = os.path.join(root, 'build', 'run', '%s.scenario%d.in' % (prop.id, scen))
+        os.makedirs(os.path.dirname(inp), exist_ok=True)
+        seeds = [seed * 100 + i for i in range(n)]
+        open(inp, 'w').write(''.join('c19: %d %d 0\n' % (scen, sd) for sd in seeds))
+        try:
+            out = subprocess.run([os.path.join(root, 'build', 'harness'), 'c19', '-replay', inp], stdout=subprocess.PIPE, stderr=subprocess.DEVNULL,
+                                 timeout=180 * n).stdout.decode('utf-8', 'replace').strip().split('\n')
+        except subprocess.TimeoutExpired:
+            out = []
+        bad = 0
+        for i, sd in enumerate(seeds):
+            o = out[i].strip() if i < len(out) else '?'
+            if not o.startswith('1'):
+                bad += 1
+                res['violations'].append({'entry': 'c19', 'kind': kind, 'input': [scen, sd, 0], 'impl': o,
+                                          'detail': '%s: outcome [%s] (-7 = the process died, -8 / -9 = calls never returned)' % (what, o)})
+        res['coverage']['scenario_lane'] = {'scenario': scen, 'runs': n, 'failed': bad, 'what': what}
+        return res
+    return f
+
+
+def m1prop(pid, props_file, prefixes, quick=300, thorough=6000, extra=None):
     return Prop(pid, harness='m1', entries=['m1c', 'm1c_h', 'm1s'], props_file=props_file, quick_n=quick, thorough_n=thorough,
                 trusted=M1_TRUSTED, assumptions=M1_ASSUME, rule=M1_RULE, design_ref='5 ' + pid, confirm_slow=True,
-                monitor_prefixes=prefixes, search_n=3000, harness_timeout=1200)
+                monitor_prefixes=prefixes, search_n=3000, harness_timeout=1200, extra=extra)
 
 PROPS['C01'] = m1prop('C01', 'theories/Props/C01.v', ['C01', 'panic', 'hang'])
 PROPS['C02'] = m1prop('C02', 'theories/Props/C02.v', ['C02'])
-PROPS['C07'] = m1prop('C07', 'theories/Props/C07.v', ['C07', 'hang', 'panic'])
+PROPS['C07'] = m1prop('C07', 'theories/Props/C07.v', ['C07', 'hang', 'panic'],
+                      extra=scenario_extra('C07-senders-vs-disconnect-deadlock', 6, 'real sockets: 4 goroutines keep sending on a charge point while the central system drops its connection 12 times; every send and the final Stop must return (F30)'))
 PROPS['C09'] = m1prop('C09', 'theories/Props/C09.v', ['C09'])
 PROPS['C10'] = m1prop('C10', 'theories/Props/C10.v', ['C10'])
 PROPS['C11'] = m1prop('C11', 'theories/Props/C11.v', ['C11'])
-PROPS['C16'] = m1prop('C16', 'theories/Props/C16.v', ['C16', 'panic'])
+PROPS['C16'] = m1prop('C16', 'theories/Props/C16.v', ['C16', 'panic'],
+                      extra=scenario_extra('C16-send-racing-stop', 5, 'real sockets: 4 goroutines send on a charge point while Stop is called, 40 rounds; nothing may crash or block (F10)'))
 
 M1_NOTE = 'Trusted: Coq kernel + vm_compute, extraction (ExtrOcamlBasic only), the Go harness with its ws doubles and quiescence detector, the hand-written LTS. Interleavings finer than one handler / one pump iteration are not in this model (DESIGN.md section 8).'
 MANIFEST_TEXT['C01'] = dict(
